@@ -274,7 +274,7 @@ fn one_seq<const N: usize>(cx: &mut Ctx, seq: &[usize], nk: usize) {
             };
         }
         {
-            cx.check(PM | C03, r.is_err() == f.overflow_at.is_some(), || {
+            cx.check(PM | C03 | C07, r.is_err() == f.overflow_at.is_some(), || {
                 format!("Extend<&T>: {} although the fold of single inserts {}", if r.is_err() { "panicked" } else { "returned" }, if f.overflow_at.is_some() { "overflows" } else { "fits" })
             });
             // (on overflow `f.m` is the state at the rejected item: the survivor must hold exactly that)
@@ -283,7 +283,7 @@ fn one_seq<const N: usize>(cx: &mut Ctx, seq: &[usize], nk: usize) {
             let want: Vec<(u8, u8)> = f.m.values().map(|(k, _)| (k.k, k.tag)).collect();
             let codes = |x: &[(u8, u8)]| x.iter().map(|e| e.0).collect::<Vec<u8>>();
             let sem = codes(&got) == codes(&want) && ps.len() == want.len();
-            cx.check(PM | C03 | C05, sem, || format!("Extend<&T>: the set holds {got:?} (element, tag) but inserting one by one gives {want:?}{}", if r.is_err() { " up to the rejected item" } else { "" }));
+            cx.check(PM | C03 | C05 | C07, sem, || format!("Extend<&T>: the set holds {got:?} (element, tag) but inserting one by one gives {want:?}{}", if r.is_err() { " up to the rejected item" } else { "" }));
             if sem {
                 cx.check(C12 | PM, got == want, || format!("Extend<&T>: stored element objects {got:?} (element, tag), but inserting one by one keeps the first of equal elements: {want:?}"));
                 for (k, t) in &want {
